@@ -2,10 +2,16 @@
 from session_common import *
 
 ID = 'C01'
-COQ_TARGETS = ['Props/Properties_C01.vo']
-PROPS_FILES = ['Props/Properties_C01.v']
-THEOREMS = ['C01_remote_rcpt_needs_relay', 'C01_auth_only_from_backend', 'C01_envelope_is_accepted_only']
-ENGINES = [ENGINE]
+COQ_TARGETS = ['Props/Properties_C01.vo', 'Props/Properties_C01t.vo']
+PROPS_FILES = ['Props/Properties_C01.v', 'Props/Properties_C01t.v']
+THEOREMS = ['C01_remote_rcpt_needs_relay', 'C01_auth_only_from_backend', 'C01_envelope_is_accepted_only',
+            'C01t_verify_positive_only_if', 'C01t_verify_complete', 'C01t_embedded_nul_never_matches', 'C01t_fails_closed',
+            'C01t_tlsclient_set_exactly_then', 'C01t_checked_once', 'C01t_no_retry', 'C01t_check_at_most_once',
+            'C01t_error_never_entitles', 'C01t_relayclient_only_if', 'C01t_is_authenticated_positive_only_if',
+            'C01t_connection', 'C01t_checker_sound']
+TLSVERIFY = dict(name='tlsverify', c_sources=['tlsverify_h.c'], extract='Extract/Extract_tlsverify.v', driver='tlsverify_driver.ml',
+                 glue=('glue.ml', 'glue_z.ml'), accepts=lambda c: c.startswith('7c '), shrink_from=2)
+ENGINES = [ENGINE, TLSVERIFY]
 RULE = ('sessions aimed at the relay decision: relayclients / relayclients6 absent, listing the client, listing another network, with a size that is not a '
         'multiple of the record size, with an invalid prefix length, unreadable; IPv4-mapped and IPv6 clients; remote recipients before and after local ones, '
         'repeated after an error, across RSET and several transactions; AUTH PLAIN attempts (right and wrong password, malformed, unknown mechanism, backend crash, '
@@ -56,7 +62,118 @@ def literal_session(rng, lip):
     return chunks
 
 
+# ------------------------------------------------------------------ engine tlsverify (TLS client certificate, unit level)
+TV_ADDRS = [b'a@b.c', b'ab@b.c', b'a@b.cd', b'A@b.c', b'user@example.org', b'host.example.org', b'x', b'a@b',
+            b'relay-1.example.net', b'u' * 60 + b'@example.org']
+EMAIL, CN, ORG = 1, 2, 3
+
+
+def tv_subject(ents):
+    return R.hx(b''.join(bytes([t, len(d)]) + d for t, d in ents))
+
+
+def tv_names(rng, listed, others):
+    """subject name aimed at the case splits of tls_check_cert: which entry is chosen, how it compares"""
+    t = rng.choice(listed) if listed else b'a@b.c'
+    o = rng.choice(others)
+    kind = rng.choice(['email', 'email', 'cn', 'nulprefix', 'nulprefix', 'prefix', 'longer', 'case', 'email_unlisted_cn_listed',
+                       'empty_email_cn_listed', 'two_emails_second_listed', 'two_emails_first_listed', 'nul_first', 'none', 'org_only',
+                       'org_then_email', 'cn_then_email', 'nul_inside_same_len', 'unlisted', 'cn_nulprefix', 'nul_suffix', 'random'])
+    if kind == 'email': return [(EMAIL, t)]
+    if kind == 'cn': return [(CN, t)]
+    if kind == 'nulprefix': return [(EMAIL, t + b'\0' + rng.choice([b'', b'x', b'.evil.example', o]))]
+    if kind == 'cn_nulprefix': return [(CN, t + b'\0' + o)]
+    if kind == 'nul_suffix': return [(rng.choice([EMAIL, CN]), t + b'\0')]
+    if kind == 'prefix': return [(EMAIL, t[:max(1, len(t) - rng.choice([1, 2]))])]
+    if kind == 'longer': return [(EMAIL, t + rng.choice([b'x', b'.', b' ']))]
+    if kind == 'case': return [(EMAIL, t.swapcase())]
+    if kind == 'email_unlisted_cn_listed': return [(EMAIL, o), (CN, t)]
+    if kind == 'empty_email_cn_listed': return [(EMAIL, b''), (CN, t)]
+    if kind == 'two_emails_second_listed': return [(EMAIL, o), (EMAIL, t)]
+    if kind == 'two_emails_first_listed': return [(EMAIL, t), (EMAIL, o)]
+    if kind == 'nul_first': return [(EMAIL, b'\0' + t)]
+    if kind == 'none': return []
+    if kind == 'org_only': return [(ORG, t)]
+    if kind == 'org_then_email': return [(ORG, o), (EMAIL, t)]
+    if kind == 'cn_then_email': return [(CN, o), (EMAIL, t)]
+    if kind == 'nul_inside_same_len':
+        k = rng.randrange(len(t))
+        return [(EMAIL, t[:k] + b'\0' + t[k + 1:])]
+    if kind == 'unlisted': return [(rng.choice([EMAIL, CN]), o)]
+    n = rng.choice([0, 1, 2, 3])
+    return [(rng.choice([EMAIL, CN, ORG]), bytes(rng.choice([0, 0x40, 0x61, 0x62, 0x2e, 0x63]) for _ in range(rng.choice([0, 1, 3, 5, 6]))))
+            for _ in range(n)]
+
+
+def tv_call(rng, op=None):
+    """one call: mostly the configuration in which everything succeeds, with one or two oracles turned"""
+    listed = rng.sample(TV_ADDRS, rng.choice([0, 1, 1, 2, 3, 5]))
+    if listed and rng.random() < 0.3:          # entries that are prefixes / extensions of each other
+        listed.append(listed[0][:-1] if len(listed[0]) > 1 else listed[0] + b'x')
+        rng.shuffle(listed)
+    others = [a for a in TV_ADDRS if a not in listed] or [b'nobody@example.com']
+    v = dict(op=rng.choice([0, 1, 1]) if op is None else op, fl=1, ipbl=rng.choice([0, 1, 1]), lm=2, len=0, ca=1, sid=1, hs=rng.choice([0, 0, 1]),
+             vr=0, peer=1, dup=1, nw=0)
+    for _ in range(rng.choice([0, 0, 0, 1, 1, 1, 2, 3])):
+        k = rng.choice(['fl', 'fl', 'ipbl', 'lm', 'lm', 'ca', 'sid', 'hs', 'hs', 'vr', 'vr', 'peer', 'dup', 'nw'])
+        v[k] = {'fl': lambda: rng.choice([0, 2, 3]), 'ipbl': lambda: rng.choice([2, 3, 3]), 'lm': lambda: rng.choice([0, 0, 1]),
+                'ca': lambda: 0, 'sid': lambda: rng.choice([0, 0, 2, 255]), 'hs': lambda: rng.choice([256 - 110, 256 - 71, 255, 256 - 104, 256 - 5]),
+                'vr': lambda: rng.choice([18, 20, 10, 2, 1, 21, 23, 255]), 'peer': lambda: 0, 'dup': lambda: 0,
+                'nw': lambda: rng.choice([256 - 32, 255, 256 - 104, 256 - 32, 1])}[k]()
+        if k == 'lm' and v['lm'] == 0:
+            v['len'] = rng.choice([0, 2, 12, 13, 24])
+        if k in ('sid', 'hs') and rng.random() < 0.5:
+            v['nw'] = rng.choice([0, 256 - 32, 255])
+    a = bytes([v['op'], v['fl'], v['ipbl'], v['lm'], v['len'], v['ca'], v['sid'], v['hs'], v['vr'], v['peer'], v['dup'], v['nw']])
+    return R.hx(a) + ' ' + R.hx(b'\0'.join(listed)) + ' ' + tv_subject(tv_names(rng, listed, others))
+
+
+def tv_case(rng):
+    init = bytes([rng.choice([0, 0, 0, 0, 2, 2, 1, 3]), rng.choice([0, 0, 0, 0, 0, 1])])
+    n = rng.choice([1, 1, 2, 2, 3, 4, 6])
+    same_op = rng.choice([None, None, 0, 1])
+    return '7c ' + R.hx(init) + ' ' + ' '.join(tv_call(rng, same_op) for _ in range(n))
+
+
+_session_nontrivial, _session_distribution = nontrivial, distribution
+
+
+def _tv_has_nul(case):
+    for f in case.split()[4::3]:
+        b = bytes.fromhex(f) if f != '-' else b''
+        i = 0
+        while i + 2 <= len(b) and i + 2 + b[i + 1] <= len(b):
+            if 0 in b[i + 2:i + 2 + b[i + 1]]:
+                return True
+            i += 2 + b[i + 1]
+    return False
+
+
+def nontrivial(case, c_out):
+    if case.startswith('7c '):
+        # the certificate was looked at (letter P) in a sequence of at least two calls, or a call succeeded by certificate
+        return ('P' in c_out and len(c_out.split()) > 1) or 'PD' in c_out
+    return _session_nontrivial(case, c_out)
+
+
+def distribution(results):
+    d = _session_distribution([r for r in results if not r['case'].startswith('7c ')])
+    tv = [r for r in results if r['case'].startswith('7c ')]
+    d['tlsverify_cases'] = len(tv)
+    calls = [t for r in tv for t in r['c'].split()]
+    d['tlsverify_calls'] = len(calls)
+    d['tlsverify_entitled'] = sum(1 for t in calls if t.endswith('PD') and t.startswith('r1,'))
+    d['tlsverify_certificate_compared_no_match'] = sum(1 for t in calls if t.endswith('P'))
+    d['tlsverify_errors'] = sum(1 for t in calls if t.startswith('r-'))
+    d['tlsverify_died'] = sum(1 for t in calls if t.startswith('die'))
+    d['tlsverify_skipped_by_ssl_verified'] = sum(1 for t in calls if t.endswith(',1,null,-') or t.endswith(',1,null,B'))
+    d['tlsverify_cases_with_nul_in_subject'] = sum(1 for r in tv if _tv_has_nul(r['case']))
+    return d
+
+
 def gen_cases(engine, rng, tier):
+    if engine == 'tlsverify':
+        return [tv_case(rng) for _ in range(4000 if tier == 'quick' else 150000)]
     n = 300 if tier == 'quick' else 6000
     out = []
     for _ in range(n // 2):
